@@ -605,3 +605,49 @@ class C17(DirectSpec):
 
     def floors(self, tier):
         return [(f"cell.{m}.{b}.{pc}", 1, "cell populated") for m in ("clip", "reflect", "toroidal") for b in gen.BOX_CLASSES for pc in C17_POINT_CLASSES]
+
+
+@register
+class C16(DirectSpec):
+    prop = "C16"
+    module = "c16"
+    rule = (
+        "wrapper stacks of depth 0-4 over {counting, cutoff(N), precision(opt, eps), stats} in every order and both directions, driven by generated "
+        "call sequences next to a reference model of each wrapper, every observable compared after every call; distinct non-trivial = distinct "
+        "(stack shape, direction) with >=1 call past a cutoff or repeated precision hits"
+    )
+    sizes = {"quick": 2000, "thorough": 100000}
+    budgets = {"quick": 60.0, "thorough": 900.0}
+    assumptions = ["the reference model of each wrapper (vlib/monitors/c16.py: Model) is the specification", "objective = first coordinate of the point (so the harness controls every returned value)"]
+
+    def floors(self, tier):
+        fl = [(f"pair.inner={a}.outer={b}", 1, "ordered pair of wrapper kinds") for a in ("count", "cutoff", "prec", "stats") for b in ("count", "cutoff", "prec", "stats")]
+        n = self.sizes[tier]
+        fl += [("sequences_with_calls_past_cutoff", n // 10, "calls past the cutoff in >=10% of sequences"), ("sequences_with_repeated_precision_hits", n // 10, "repeated precision hits in >=10% of sequences")]
+        return fl
+
+
+@register
+class C15(DirectSpec):
+    prop = "C15"
+    module = "c15"
+    rule = (
+        "NearestBetterClustering called directly on generated populations (uniform / clustered / collinear / tied / tied-with-best / tightly converged; "
+        "n 2-60, dim 1-8, factors 0.5-4, truncation 0.1-1 incl. K=1) and compared with an independent O(n^2) reference, plus metamorphic re-runs; "
+        "distinct non-trivial = distinct (class, n, dim, factor, truncation) whose reference result has >=2 and <K seeds"
+    )
+    sizes = {"quick": 4000, "thorough": 200000}
+    budgets = {"quick": 75.0, "thorough": 1200.0}
+    assumptions = [
+        "vlib/monitors/c15.py:ref_nbc is the definition; threshold decisions are three-valued (relative band 1e-9)",
+        "K = 0 has no defined answer and is excluded (counted); cases where int(n*truncation) in floats differs from the exact floor are excluded (counted)",
+        "when several individuals tie for the best, any of them is accepted as 'the best one'",
+    ]
+
+    def floors(self, tier):
+        from .monitors.c15 import CLASSES
+
+        n = self.sizes[tier]
+        fl = [(f"class.{c}.{dr}", 1, "input class x direction") for c in CLASSES for dr in ("min", "max")]
+        fl += [("K_equals_1", n // 100, ">=1% of cases with K=1"), ("converged_populations", n // 20, ">=5% converged")]
+        return fl
